@@ -19,20 +19,20 @@ ReadSteps == {"RdArm", "RdHeader", "RdHeaderErr", "RdPayArm", "RdPayload", "RdPa
 
 VARIABLES i, lk, cPre, cPost, late, ws, role, flate,
           sentW, rcvdW, sentR, rcvdR, armedW, armedR, succeeded,
-          reg, pingSent, notified, gor, crG, atCall, wcOK, rcvdCode, bad, skip
+          reg, everReg, ctlReg, pingSent, notified, gor, crG, atCall, wcOK, rcvdCode, bad, skip
 vars == <<i, lk, cPre, cPost, late, ws, role, flate, sentW, rcvdW, sentR, rcvdR, armedW, armedR,
-          succeeded, reg, pingSent, notified, gor, crG, atCall, wcOK, rcvdCode, bad, skip>>
+          succeeded, reg, everReg, ctlReg, pingSent, notified, gor, crG, atCall, wcOK, rcvdCode, bad, skip>>
 
 Fresh == /\ lk = [x \in Locks |-> 0] /\ cPre = FALSE /\ cPost = FALSE /\ late = {} /\ ws = W0
          /\ role = "server" /\ flate = FALSE
          /\ sentW = <<>> /\ rcvdW = <<>> /\ sentR = <<>> /\ rcvdR = <<>> /\ armedW = 0 /\ armedR = 0
-         /\ succeeded = {} /\ reg = {} /\ pingSent = {} /\ notified = {} /\ gor = {} /\ crG = 0
+         /\ succeeded = {} /\ reg = {} /\ everReg = {} /\ ctlReg = {} /\ pingSent = {} /\ notified = {} /\ gor = {} /\ crG = 0
          /\ atCall = [x \in {} |-> {}] /\ wcOK = [x \in {} |-> TRUE] /\ rcvdCode = [x \in {} |-> 0]
 Init == i = 1 /\ Fresh /\ bad = {} /\ skip = FALSE /\ TLCSet(1, 1) /\ TLCSet(2, 0)
 
 e == Log[i]
 state == <<lk, cPre, cPost, late, ws, role, flate, sentW, rcvdW, sentR, rcvdR, armedW, armedR,
-           succeeded, reg, pingSent, notified, gor, crG, atCall, wcOK, rcvdCode>>
+           succeeded, reg, everReg, ctlReg, pingSent, notified, gor, crG, atCall, wcOK, rcvdCode>>
 Same(vs) == UNCHANGED vs
 Fail(why) == /\ bad' = bad \cup {why} /\ skip' = TRUE /\ TLCSet(2, TLCGet(2) + 1) /\ PrintT(<<"REJECTED", i, why, e>>) /\ UNCHANGED state
 
@@ -48,40 +48,40 @@ Step ==
        [] e.ev = "TraceReset" ->
             /\ lk' = [x \in Locks |-> 0] /\ cPre' = FALSE /\ cPost' = FALSE /\ late' = {} /\ ws' = W0
             /\ role' = "server" /\ flate' = FALSE /\ sentW' = <<>> /\ rcvdW' = <<>> /\ sentR' = <<>> /\ rcvdR' = <<>>
-            /\ armedW' = 0 /\ armedR' = 0 /\ succeeded' = {} /\ reg' = {} /\ pingSent' = {} /\ notified' = {} /\ gor' = {} /\ crG' = 0
+            /\ armedW' = 0 /\ armedR' = 0 /\ succeeded' = {} /\ reg' = {} /\ everReg' = {} /\ ctlReg' = {} /\ pingSent' = {} /\ notified' = {} /\ gor' = {} /\ crG' = 0
             /\ atCall' = [x \in {} |-> {}] /\ wcOK' = [x \in {} |-> TRUE] /\ rcvdCode' = [x \in {} |-> 0] /\ skip' = FALSE /\ UNCHANGED bad
        [] e.ev = "ConnNew" ->
             /\ role' = (IF e.a = 1 THEN "client" ELSE "server") /\ flate' = (e.b # 0)
-            /\ UNCHANGED <<lk, cPre, cPost, late, ws, sentW, rcvdW, sentR, rcvdR, armedW, armedR, succeeded, reg, pingSent, notified, gor, crG, atCall, wcOK, rcvdCode, bad, skip>>
+            /\ UNCHANGED <<lk, cPre, cPost, late, ws, sentW, rcvdW, sentR, rcvdR, armedW, armedR, succeeded, reg, everReg, ctlReg, pingSent, notified, gor, crG, atCall, wcOK, rcvdCode, bad, skip>>
        \* ---------------- channel mutexes (R2/R3) ----------------
        [] e.ev = "LockBegin" /\ e.l \in Locks ->
             /\ late' = IF cPost THEN late \cup {e.g} ELSE late \ {e.g}
-            /\ UNCHANGED <<lk, cPre, cPost, ws, role, flate, sentW, rcvdW, sentR, rcvdR, armedW, armedR, succeeded, reg, pingSent, notified, gor, crG, atCall, wcOK, rcvdCode, bad, skip>>
+            /\ UNCHANGED <<lk, cPre, cPost, ws, role, flate, sentW, rcvdW, sentR, rcvdR, armedW, armedR, succeeded, reg, everReg, ctlReg, pingSent, notified, gor, crG, atCall, wcOK, rcvdCode, bad, skip>>
        [] e.ev = "LockOK" /\ e.l \in Locks ->
             IF lk[e.l] # 0 THEN Fail("lock-acquired-while-held:" \o e.l)
             ELSE IF e.g \in late THEN Fail("lock-acquired-after-connection-closed:" \o e.l)
             ELSE /\ lk' = [lk EXCEPT ![e.l] = e.g]
-                 /\ UNCHANGED <<cPre, cPost, late, ws, role, flate, sentW, rcvdW, sentR, rcvdR, armedW, armedR, succeeded, reg, pingSent, notified, gor, crG, atCall, wcOK, rcvdCode, bad, skip>>
+                 /\ UNCHANGED <<cPre, cPost, late, ws, role, flate, sentW, rcvdW, sentR, rcvdR, armedW, armedR, succeeded, reg, everReg, ctlReg, pingSent, notified, gor, crG, atCall, wcOK, rcvdCode, bad, skip>>
        [] e.ev = "LockAcqSawClosed" /\ e.l \in Locks ->
             IF ~cPre THEN Fail("saw-closed-before-close")
             ELSE /\ lk' = [lk EXCEPT ![e.l] = e.g]
-                 /\ UNCHANGED <<cPre, cPost, late, ws, role, flate, sentW, rcvdW, sentR, rcvdR, armedW, armedR, succeeded, reg, pingSent, notified, gor, crG, atCall, wcOK, rcvdCode, bad, skip>>
+                 /\ UNCHANGED <<cPre, cPost, late, ws, role, flate, sentW, rcvdW, sentR, rcvdR, armedW, armedR, succeeded, reg, everReg, ctlReg, pingSent, notified, gor, crG, atCall, wcOK, rcvdCode, bad, skip>>
        [] e.ev = "LockFailClosed" /\ e.l \in Locks ->
             IF ~cPre THEN Fail("saw-closed-before-close") ELSE Same(state) /\ UNCHANGED <<bad, skip>>
        [] e.ev = "ForceLock" /\ e.l \in Locks ->
-            IF ~cPre /\ lk[e.l] # 0 THEN Fail("forcelock-acquired-while-held:" \o e.l)
+            IF lk[e.l] # 0 /\ lk[e.l] # e.g THEN Fail("forcelock-acquired-while-held:" \o e.l)
             ELSE /\ lk' = [lk EXCEPT ![e.l] = e.g]
-                 /\ UNCHANGED <<cPre, cPost, late, ws, role, flate, sentW, rcvdW, sentR, rcvdR, armedW, armedR, succeeded, reg, pingSent, notified, gor, crG, atCall, wcOK, rcvdCode, bad, skip>>
+                 /\ UNCHANGED <<cPre, cPost, late, ws, role, flate, sentW, rcvdW, sentR, rcvdR, armedW, armedR, succeeded, reg, everReg, ctlReg, pingSent, notified, gor, crG, atCall, wcOK, rcvdCode, bad, skip>>
        [] e.ev = "UnlockPre" /\ e.l \in Locks ->
             /\ lk' = [lk EXCEPT ![e.l] = 0]
-            /\ UNCHANGED <<cPre, cPost, late, ws, role, flate, sentW, rcvdW, sentR, rcvdR, armedW, armedR, succeeded, reg, pingSent, notified, gor, crG, atCall, wcOK, rcvdCode, bad, skip>>
+            /\ UNCHANGED <<cPre, cPost, late, ws, role, flate, sentW, rcvdW, sentR, rcvdR, armedW, armedR, succeeded, reg, everReg, ctlReg, pingSent, notified, gor, crG, atCall, wcOK, rcvdCode, bad, skip>>
        \* ---------------- close() ----------------
        [] e.ev = "ClosedPre" ->
             IF cPre THEN Fail("closed-twice")
-            ELSE cPre' = TRUE /\ UNCHANGED <<lk, cPost, late, ws, role, flate, sentW, rcvdW, sentR, rcvdR, armedW, armedR, succeeded, reg, pingSent, notified, gor, crG, atCall, wcOK, rcvdCode, bad, skip>>
+            ELSE cPre' = TRUE /\ UNCHANGED <<lk, cPost, late, ws, role, flate, sentW, rcvdW, sentR, rcvdR, armedW, armedR, succeeded, reg, everReg, ctlReg, pingSent, notified, gor, crG, atCall, wcOK, rcvdCode, bad, skip>>
        [] e.ev = "ClosedPost" ->
             IF ~cPre \/ cPost THEN Fail("closed-post-without-pre")
-            ELSE cPost' = TRUE /\ UNCHANGED <<lk, cPre, late, ws, role, flate, sentW, rcvdW, sentR, rcvdR, armedW, armedR, succeeded, reg, pingSent, notified, gor, crG, atCall, wcOK, rcvdCode, bad, skip>>
+            ELSE cPost' = TRUE /\ UNCHANGED <<lk, cPre, late, ws, role, flate, sentW, rcvdW, sentR, rcvdR, armedW, armedR, succeeded, reg, everReg, ctlReg, pingSent, notified, gor, crG, atCall, wcOK, rcvdCode, bad, skip>>
        [] e.ev \in {"CloseAlready", "RwcClosed"} ->
             IF ~cPost THEN Fail("close-bookkeeping") ELSE Same(state) /\ UNCHANGED <<bad, skip>>
        \* ---------------- writeFrame: the single emission point ----------------
@@ -99,33 +99,33 @@ Step ==
                ELSE IF ~r.ok THEN Fail(r.why)
                ELSE IF h.op = OpClose /\ e.g \in DOMAIN wcOK /\ ~wcOK[e.g] THEN Fail("close-frame-after-marshal-error")
                ELSE /\ ws' = r.st
-                    /\ UNCHANGED <<lk, cPre, cPost, late, role, flate, sentW, rcvdW, sentR, rcvdR, armedW, armedR, succeeded, reg, pingSent, notified, gor, crG, atCall, wcOK, rcvdCode, bad, skip>>
+                    /\ UNCHANGED <<lk, cPre, cPost, late, role, flate, sentW, rcvdW, sentR, rcvdR, armedW, armedR, succeeded, reg, everReg, ctlReg, pingSent, notified, gor, crG, atCall, wcOK, rcvdCode, bad, skip>>
        \* ---------------- timeoutLoop hand-off ----------------
        [] e.ev \in {"WfArm", "WfDisarm"} ->
             LET v == IF e.ev = "WfArm" THEN e.a ELSE 0 IN
             IF lk["wf"] # e.g THEN Fail("frame-step-without-frame-lock:" \o e.ev)
             ELSE IF rcvdW # <<>> THEN (IF Head(rcvdW) # v THEN Fail("timeoutloop-received-other-write-context")
-                                       ELSE rcvdW' = Tail(rcvdW) /\ UNCHANGED <<lk, cPre, cPost, late, ws, role, flate, sentW, sentR, rcvdR, armedW, armedR, succeeded, reg, pingSent, notified, gor, crG, atCall, wcOK, rcvdCode, bad, skip>>)
+                                       ELSE rcvdW' = Tail(rcvdW) /\ UNCHANGED <<lk, cPre, cPost, late, ws, role, flate, sentW, sentR, rcvdR, armedW, armedR, succeeded, reg, everReg, ctlReg, pingSent, notified, gor, crG, atCall, wcOK, rcvdCode, bad, skip>>)
             ELSE IF Len(sentW) >= 1 THEN Fail("write-context-handoff-never-received")
-            ELSE sentW' = Append(sentW, v) /\ UNCHANGED <<lk, cPre, cPost, late, ws, role, flate, rcvdW, sentR, rcvdR, armedW, armedR, succeeded, reg, pingSent, notified, gor, crG, atCall, wcOK, rcvdCode, bad, skip>>
+            ELSE sentW' = Append(sentW, v) /\ UNCHANGED <<lk, cPre, cPost, late, ws, role, flate, rcvdW, sentR, rcvdR, armedW, armedR, succeeded, reg, everReg, ctlReg, pingSent, notified, gor, crG, atCall, wcOK, rcvdCode, bad, skip>>
        [] e.ev = "TLArmW" ->
             IF sentW # <<>> THEN (IF Head(sentW) # e.a THEN Fail("timeoutloop-received-other-write-context")
-                                  ELSE sentW' = Tail(sentW) /\ armedW' = e.a /\ UNCHANGED <<lk, cPre, cPost, late, ws, role, flate, rcvdW, sentR, rcvdR, armedR, succeeded, reg, pingSent, notified, gor, crG, atCall, wcOK, rcvdCode, bad, skip>>)
+                                  ELSE sentW' = Tail(sentW) /\ armedW' = e.a /\ UNCHANGED <<lk, cPre, cPost, late, ws, role, flate, rcvdW, sentR, rcvdR, armedR, succeeded, reg, everReg, ctlReg, pingSent, notified, gor, crG, atCall, wcOK, rcvdCode, bad, skip>>)
             ELSE IF Len(rcvdW) >= 1 THEN Fail("timeoutloop-received-unsent-write-context")
-            ELSE rcvdW' = Append(rcvdW, e.a) /\ armedW' = e.a /\ UNCHANGED <<lk, cPre, cPost, late, ws, role, flate, sentW, sentR, rcvdR, armedR, succeeded, reg, pingSent, notified, gor, crG, atCall, wcOK, rcvdCode, bad, skip>>
+            ELSE rcvdW' = Append(rcvdW, e.a) /\ armedW' = e.a /\ UNCHANGED <<lk, cPre, cPost, late, ws, role, flate, sentW, sentR, rcvdR, armedR, succeeded, reg, everReg, ctlReg, pingSent, notified, gor, crG, atCall, wcOK, rcvdCode, bad, skip>>
        \* ---------------- the read side: every step that consumes input or hands bytes over is taken under readMu ----------------
        [] e.ev \in ReadSteps /\ lk["rd"] # e.g -> Fail("read-step-without-read-lock:" \o e.ev)
        [] e.ev \in {"RdArm", "RdPayArm", "RdHeader", "RdPayload"} ->
             LET v == IF e.ev \in {"RdArm", "RdPayArm"} THEN e.a ELSE 0 IN
             IF rcvdR # <<>> THEN (IF Head(rcvdR) # v THEN Fail("timeoutloop-received-other-read-context")
-                                  ELSE rcvdR' = Tail(rcvdR) /\ UNCHANGED <<lk, cPre, cPost, late, ws, role, flate, sentW, rcvdW, sentR, armedW, armedR, succeeded, reg, pingSent, notified, gor, crG, atCall, wcOK, rcvdCode, bad, skip>>)
+                                  ELSE rcvdR' = Tail(rcvdR) /\ UNCHANGED <<lk, cPre, cPost, late, ws, role, flate, sentW, rcvdW, sentR, armedW, armedR, succeeded, reg, everReg, ctlReg, pingSent, notified, gor, crG, atCall, wcOK, rcvdCode, bad, skip>>)
             ELSE IF Len(sentR) >= 1 THEN Fail("read-context-handoff-never-received")
-            ELSE sentR' = Append(sentR, v) /\ UNCHANGED <<lk, cPre, cPost, late, ws, role, flate, sentW, rcvdW, rcvdR, armedW, armedR, succeeded, reg, pingSent, notified, gor, crG, atCall, wcOK, rcvdCode, bad, skip>>
+            ELSE sentR' = Append(sentR, v) /\ UNCHANGED <<lk, cPre, cPost, late, ws, role, flate, sentW, rcvdW, rcvdR, armedW, armedR, succeeded, reg, everReg, ctlReg, pingSent, notified, gor, crG, atCall, wcOK, rcvdCode, bad, skip>>
        [] e.ev = "TLArmR" ->
             IF sentR # <<>> THEN (IF Head(sentR) # e.a THEN Fail("timeoutloop-received-other-read-context")
-                                  ELSE sentR' = Tail(sentR) /\ armedR' = e.a /\ UNCHANGED <<lk, cPre, cPost, late, ws, role, flate, sentW, rcvdW, rcvdR, armedW, succeeded, reg, pingSent, notified, gor, crG, atCall, wcOK, rcvdCode, bad, skip>>)
+                                  ELSE sentR' = Tail(sentR) /\ armedR' = e.a /\ UNCHANGED <<lk, cPre, cPost, late, ws, role, flate, sentW, rcvdW, rcvdR, armedW, succeeded, reg, everReg, ctlReg, pingSent, notified, gor, crG, atCall, wcOK, rcvdCode, bad, skip>>)
             ELSE IF Len(rcvdR) >= 1 THEN Fail("timeoutloop-received-unsent-read-context")
-            ELSE rcvdR' = Append(rcvdR, e.a) /\ armedR' = e.a /\ UNCHANGED <<lk, cPre, cPost, late, ws, role, flate, sentW, rcvdW, sentR, armedW, succeeded, reg, pingSent, notified, gor, crG, atCall, wcOK, rcvdCode, bad, skip>>
+            ELSE rcvdR' = Append(rcvdR, e.a) /\ armedR' = e.a /\ UNCHANGED <<lk, cPre, cPost, late, ws, role, flate, sentW, rcvdW, sentR, armedW, succeeded, reg, everReg, ctlReg, pingSent, notified, gor, crG, atCall, wcOK, rcvdCode, bad, skip>>
        [] e.ev \in {"TLFireR", "TLFireW"} ->
             IF e.a > 0 /\ e.a \in succeeded THEN Fail("context-of-successful-call-closed-the-connection")
             ELSE IF e.ev = "TLFireR" /\ armedR # e.a THEN Fail("timeoutloop-fired-unarmed-read-context")
@@ -133,14 +133,20 @@ Step ==
             ELSE Same(state) /\ UNCHANGED <<bad, skip>>
        [] e.ev = "ApiEnd" ->
             /\ succeeded' = IF e.b = 0 /\ e.a > 0 THEN succeeded \cup {e.a} ELSE succeeded
-            /\ UNCHANGED <<lk, cPre, cPost, late, ws, role, flate, sentW, rcvdW, sentR, rcvdR, armedW, armedR, reg, pingSent, notified, gor, crG, atCall, wcOK, rcvdCode, bad, skip>>
+            /\ UNCHANGED <<lk, cPre, cPost, late, ws, role, flate, sentW, rcvdW, sentR, rcvdR, armedW, armedR, reg, everReg, ctlReg, pingSent, notified, gor, crG, atCall, wcOK, rcvdCode, bad, skip>>
        \* ---------------- pings ----------------
        [] e.ev = "PingReg" ->
-            reg' = reg \cup {e.s} /\ UNCHANGED <<pingSent, lk, cPre, cPost, late, ws, role, flate, sentW, rcvdW, sentR, rcvdR, armedW, armedR, succeeded, notified, gor, crG, atCall, wcOK, rcvdCode, bad, skip>>
+            reg' = reg \cup {e.s} /\ everReg' = everReg \cup {e.s} /\ UNCHANGED <<ctlReg, pingSent, lk, cPre, cPost, late, ws, role, flate, sentW, rcvdW, sentR, rcvdR, armedW, armedR, succeeded, notified, gor, crG, atCall, wcOK, rcvdCode, bad, skip>>
+       \* PongRcvd is logged after the lookup in activePings (outside its mutex): a Ping may register or unregister between the
+       \* lookup and the log line.  Rule R3: "matched" needs the payload to have been registered at some time; "not matched" is
+       \* wrong only if the payload was registered when this frame's payload was logged (CtlPayload, before the lookup) and still is.
+       [] e.ev = "CtlPayload" /\ e.a = OpPong ->
+            ctlReg' = reg /\ UNCHANGED <<lk, cPre, cPost, late, ws, role, flate, sentW, rcvdW, sentR, rcvdR, armedW, armedR, succeeded, reg, everReg, pingSent, notified, gor, crG, atCall, wcOK, rcvdCode, bad, skip>>
        [] e.ev = "PongRcvd" ->
-            IF (e.a = 1) # (e.s \in reg) THEN Fail("pong-matched-against-wrong-ping-set")
+            IF e.a = 1 /\ e.s \notin everReg THEN Fail("pong-matched-against-wrong-ping-set")
+            ELSE IF e.a = 0 /\ e.s \in ctlReg /\ e.s \in reg THEN Fail("pong-matched-against-wrong-ping-set")
             ELSE notified' = (IF e.a = 1 THEN notified \cup {e.s} ELSE notified)
-                 /\ UNCHANGED <<lk, cPre, cPost, late, ws, role, flate, sentW, rcvdW, sentR, rcvdR, armedW, armedR, succeeded, reg, pingSent, gor, crG, atCall, wcOK, rcvdCode, bad, skip>>
+                 /\ UNCHANGED <<lk, cPre, cPost, late, ws, role, flate, sentW, rcvdW, sentR, rcvdR, armedW, armedR, succeeded, reg, everReg, ctlReg, pingSent, gor, crG, atCall, wcOK, rcvdCode, bad, skip>>
        [] e.ev = "PingResPong" ->
             IF e.s \notin notified THEN Fail("ping-returned-nil-without-its-own-pong")
             ELSE Same(state) /\ UNCHANGED <<bad, skip>>
@@ -152,24 +158,24 @@ Step ==
             IF e.s \notin reg THEN Fail("ping-frame-payload-is-not-a-registered-ping")
             ELSE IF e.s \in pingSent THEN Fail("two-ping-frames-in-flight-with-the-same-payload")
             ELSE pingSent' = pingSent \cup {e.s}
-                 /\ UNCHANGED <<lk, cPre, cPost, late, ws, role, flate, sentW, rcvdW, sentR, rcvdR, armedW, armedR, succeeded, reg, notified, gor, crG, atCall, wcOK, rcvdCode, bad, skip>>
+                 /\ UNCHANGED <<lk, cPre, cPost, late, ws, role, flate, sentW, rcvdW, sentR, rcvdR, armedW, armedR, succeeded, reg, everReg, ctlReg, notified, gor, crG, atCall, wcOK, rcvdCode, bad, skip>>
        [] e.ev = "PingUnreg" ->
             /\ reg' = reg \ {e.s} /\ notified' = notified \ {e.s} /\ pingSent' = pingSent \ {e.s}
-            /\ UNCHANGED <<lk, cPre, cPost, late, ws, role, flate, sentW, rcvdW, sentR, rcvdR, armedW, armedR, succeeded, gor, crG, atCall, wcOK, rcvdCode, bad, skip>>
+            /\ UNCHANGED <<lk, cPre, cPost, late, ws, role, flate, sentW, rcvdW, sentR, rcvdR, armedW, armedR, succeeded, everReg, ctlReg, gor, crG, atCall, wcOK, rcvdCode, bad, skip>>
        \* ---------------- close handshake ----------------
        [] e.ev = "WcBegin" ->
             \* e.a = code, e.b = error class of marshalling the close body (0 = ok)
             IF e.b = 0 /\ ~(e.a = 1005 \/ ValidWireCode(e.a)) THEN Fail("unsendable-close-code-marshalled")
             ELSE IF e.g \in DOMAIN rcvdCode /\ rcvdCode[e.g] # 0 /\ rcvdCode[e.g] # e.a THEN Fail("received-close-echoed-with-another-code")
             ELSE wcOK' = Put(wcOK, e.g, e.b = 0)
-                 /\ UNCHANGED <<lk, cPre, cPost, late, ws, role, flate, sentW, rcvdW, sentR, rcvdR, armedW, armedR, succeeded, reg, pingSent, notified, gor, crG, atCall, rcvdCode, bad, skip>>
+                 /\ UNCHANGED <<lk, cPre, cPost, late, ws, role, flate, sentW, rcvdW, sentR, rcvdR, armedW, armedR, succeeded, reg, everReg, ctlReg, pingSent, notified, gor, crG, atCall, rcvdCode, bad, skip>>
        [] e.ev = "CloseRcvd" ->
             IF ~(e.a = 1005 \/ ValidWireCode(e.a)) THEN Fail("invalid-close-code-accepted")
             ELSE rcvdCode' = Put(rcvdCode, e.g, e.a)
-                 /\ UNCHANGED <<lk, cPre, cPost, late, ws, role, flate, sentW, rcvdW, sentR, rcvdR, armedW, armedR, succeeded, reg, pingSent, notified, gor, crG, atCall, wcOK, bad, skip>>
+                 /\ UNCHANGED <<lk, cPre, cPost, late, ws, role, flate, sentW, rcvdW, sentR, rcvdR, armedW, armedR, succeeded, reg, everReg, ctlReg, pingSent, notified, gor, crG, atCall, wcOK, bad, skip>>
        [] e.ev \in {"CloseCall", "CloseNowCall"} ->
             atCall' = Put(atCall, e.g, gor)
-            /\ UNCHANGED <<lk, cPre, cPost, late, ws, role, flate, sentW, rcvdW, sentR, rcvdR, armedW, armedR, succeeded, reg, pingSent, notified, gor, crG, wcOK, rcvdCode, bad, skip>>
+            /\ UNCHANGED <<lk, cPre, cPost, late, ws, role, flate, sentW, rcvdW, sentR, rcvdR, armedW, armedR, succeeded, reg, everReg, ctlReg, pingSent, notified, gor, crG, wcOK, rcvdCode, bad, skip>>
        [] e.ev \in {"CloseRet", "CloseNowRet"} ->
             LET before == IF e.g \in DOMAIN atCall THEN atCall[e.g] ELSE {}
                 alive == (before \cap gor) \ (IF crG = e.g THEN {"cr"} ELSE {})
@@ -178,12 +184,12 @@ Step ==
                ELSE Same(state) /\ UNCHANGED <<bad, skip>>
        [] e.ev = "WgTimeout" -> Fail("close-needed-the-15s-goroutine-backstop")
        \* ---------------- goroutines ----------------
-       [] e.ev = "TLStart" -> gor' = gor \cup {"tl"} /\ UNCHANGED <<lk, cPre, cPost, late, ws, role, flate, sentW, rcvdW, sentR, rcvdR, armedW, armedR, succeeded, reg, pingSent, notified, crG, atCall, wcOK, rcvdCode, bad, skip>>
+       [] e.ev = "TLStart" -> gor' = gor \cup {"tl"} /\ UNCHANGED <<lk, cPre, cPost, late, ws, role, flate, sentW, rcvdW, sentR, rcvdR, armedW, armedR, succeeded, reg, everReg, ctlReg, pingSent, notified, crG, atCall, wcOK, rcvdCode, bad, skip>>
        [] e.ev = "TLExit"  -> IF ~cPre THEN Fail("timeoutloop-exited-with-connection-open")
-                              ELSE gor' = gor \ {"tl"} /\ UNCHANGED <<lk, cPre, cPost, late, ws, role, flate, sentW, rcvdW, sentR, rcvdR, armedW, armedR, succeeded, reg, pingSent, notified, crG, atCall, wcOK, rcvdCode, bad, skip>>
-       [] e.ev = "CrStart" -> gor' = gor \cup {"cr"} /\ crG' = e.g /\ UNCHANGED <<lk, cPre, cPost, late, ws, role, flate, sentW, rcvdW, sentR, rcvdR, armedW, armedR, succeeded, reg, pingSent, notified, atCall, wcOK, rcvdCode, bad, skip>>
+                              ELSE gor' = gor \ {"tl"} /\ UNCHANGED <<lk, cPre, cPost, late, ws, role, flate, sentW, rcvdW, sentR, rcvdR, armedW, armedR, succeeded, reg, everReg, ctlReg, pingSent, notified, crG, atCall, wcOK, rcvdCode, bad, skip>>
+       [] e.ev = "CrStart" -> gor' = gor \cup {"cr"} /\ crG' = e.g /\ UNCHANGED <<lk, cPre, cPost, late, ws, role, flate, sentW, rcvdW, sentR, rcvdR, armedW, armedR, succeeded, reg, everReg, ctlReg, pingSent, notified, atCall, wcOK, rcvdCode, bad, skip>>
        [] e.ev = "CrExit"  -> IF ~cPost THEN Fail("closeread-goroutine-exited-with-connection-open")
-                              ELSE gor' = gor \ {"cr"} /\ UNCHANGED <<lk, cPre, cPost, late, ws, role, flate, sentW, rcvdW, sentR, rcvdR, armedW, armedR, succeeded, reg, pingSent, notified, crG, atCall, wcOK, rcvdCode, bad, skip>>
+                              ELSE gor' = gor \ {"cr"} /\ UNCHANGED <<lk, cPre, cPost, late, ws, role, flate, sentW, rcvdW, sentR, rcvdR, armedW, armedR, succeeded, reg, everReg, ctlReg, pingSent, notified, crG, atCall, wcOK, rcvdCode, bad, skip>>
        [] OTHER -> Same(state) /\ UNCHANGED <<bad, skip>>
 Next == Step
 HW == TLCSet(1, IF TLCGet(1) < i THEN i ELSE TLCGet(1))
